@@ -60,7 +60,17 @@ def fnvalue(ex, st, fv, pos, kw, node):
     raise Unsupported("call through function value " + ast.dump(f)[:60], node)
 
 
+def spec_baulk_probability(ex, st, e):
+    """baulk_probability(fn, n): the value the baulking function fn returns for population n (the same
+    uninterpreted function the executor uses for the call itself)"""
+    fv = ex.ev1(e.args[0], st)
+    n = ex.as_int(ex.ev1(e.args[1], st), st, e)
+    return SV("val", BaulkP(ex.to_val(fv), n), T("num"))
+
+
 def declare(spec):
+    from pyvc import specfn
+    specfn.SPEC_FUNCS["baulk_probability"] = spec_baulk_probability
     spec.externals["random.random"] = ext_random
     spec.externals["random"] = ext_random
     spec.externals["$fnvalue"] = fnvalue
